@@ -51,6 +51,15 @@ def skeletons(tier):
         out.append({"id": f"ranks2-pool{int(mpool)}", "fam": "ranks", "nranks": 2, "params": {"pool": mpool}})
         if tier == "thorough":
             out.append({"id": f"ranks3-pool{int(mpool)}", "fam": "ranks", "nranks": 3, "params": {"pool": mpool}})
+    hist = [("s0-m1", [["single", 0], ["multi", [1]]]), ("s1-m0", [["single", 1], ["multi", [0]]]),
+            ("m1-m0", [["multi", [1]], ["multi", [0]]])]
+    if tier == "thorough":
+        hist += [("s1-s0", [["single", 1], ["single", 0]]), ("m0-s1", [["multi", [0]], ["single", 1]])]
+    for hid, steps in hist:
+        out.append({"id": f"ranks2-steps-{hid}", "fam": "ranks", "nranks": 2, "params": {"pool": False, "steps": steps}})
+    if tier == "thorough":
+        out.append({"id": "ranks3-steps-s0-m12", "fam": "ranks", "nranks": 3,
+                    "params": {"pool": True, "steps": [["single", 0], ["multi", [1, 2]]]}})
     for mpool in (False, True):
         out.append({"id": f"ranks2-bigvocab-pool{int(mpool)}", "fam": "ranks", "nranks": 2,
                     "params": {"pool": mpool, "big": 70 if tier == "quick" else 140}})
@@ -264,7 +273,15 @@ def run_ranks(ctx):
         NDSet.forced = (0, 0) if big else None      # big vocabularies: one iteration order (2m orders otherwise)
         ctx.mods["hta.common.trace_parser"].__dict__["set"] = NDSet
     try:
-        ta.t.parse_traces(use_multiprocessing=ctx.params["pool"])
+        if ctx.params.get("steps"):
+            # the ranks reach the Trace object in several parse calls (a history of parse calls on one object)
+            for kind, arg in ctx.params["steps"]:
+                if kind == "single":
+                    ta.t.parse_single_rank(arg)
+                else:
+                    ta.t.parse_multiple_ranks(list(arg), use_multiprocessing=ctx.params["pool"])
+        else:
+            ta.t.parse_traces(use_multiprocessing=ctx.params["pool"])
     finally:
         if ctx.mode == "sym":
             NDSet.ctx = None
